@@ -33,20 +33,54 @@ RULE_TEXT = 'one obligation per provenance clause at each push site and per argu
 AGG = 'self.data.aggregate_time_series(%s)'
 
 
+def _denotes(view, at, arg, want, other, use_node):
+  """Does expression `arg` (at node `at`) denote the pushed group `want` (text, valid at `use_node`)?
+  True / False (it is the other pushed group) / None (not resolved)."""
+  t = norm(arg)
+  if t == want:
+    return True
+  try:
+    full_a = norm(view.rd.expand(at, arg, aliases=True)[0])
+    full_w = norm(view.rd.expand(use_node, ast.parse(want, mode='eval').body, aliases=True)[0])
+    full_o = norm(view.rd.expand(use_node, ast.parse(other, mode='eval').body, aliases=True)[0])
+  except SyntaxError:
+    return None
+  if full_a == full_w:
+    return True
+  if t == other or full_a == full_o:
+    return False
+  return None
+
+
 def diag_provenance(view, node, D, T, C):
-  """(ok, why, x_store_node, def_node) — D built from aggregate(T), D.x last set from aggregate(C)."""
+  """(verdict, why, x_store_node, def_node) — D built from aggregate(T), D.x last set from aggregate(C).
+  verdict: True / False (a recognised other group feeds the diagnostics, or no control series is ever set) / None."""
   xs = view.attr_store_before(node, D, 'x')
   if xs is None:
-    return False, 'no store to %s.x dominates the use' % D, None, None
-  xt = norm(view.expand(xs, xs.ast.value))
-  if xt != AGG % C:
-    return False, '%s.x is `%s`, not the aggregate series of the pushed control group %s' % (D, xt, C), xs, None
+    anyx = any(isinstance(x_, ast.Attribute) and x_.attr == 'x' and isinstance(x_.ctx, ast.Store) for x_ in ast.walk(view.f.node))
+    escapes = any(isinstance(c_, ast.Call) and any(isinstance(a_, ast.Name) and a_.id == D for a_ in c_.args) and norm(c_.func).split('.')[-1] not in ('deepcopy', 'copy', 'TBRMMScore', 'TBRMMDesign')
+                  for c_ in ast.walk(view.f.node))
+    return (None if (anyx or escapes) else False), 'no store to %s.x dominates the use' % D, None, None
+  xv = view.expand(xs, xs.ast.value)
+  xt = norm(xv)
+  if not (isinstance(xv, ast.Call) and norm(xv.func) == 'self.data.aggregate_time_series' and len(xv.args) == 1):
+    return None, '%s.x is `%s`, not visibly the aggregate series of the pushed control group %s' % (D, xt, C), xs, None
+  raw = xs.ast.value.args[0] if isinstance(xs.ast.value, ast.Call) and xs.ast.value.args else xv.args[0]
+  sg = _denotes(view, xs, raw, C, T, node)
+  if not sg:
+    return sg, '%s.x is `%s`, not the aggregate series of the pushed control group %s' % (D, xt, C), xs, None
   d = view.rd.single_def(xs, D)
   if d is None or d.how != 'assign':
-    return False, '%s has no unique construction' % D, xs, None
-  ct = norm(view.expand(d.node, d.value))
-  if not re.fullmatch(r'(\w+\.)?TBRMMDiagnostics\(%s, self\.parameters\)' % re.escape(AGG % T), ct):
-    return False, '%s is built as `%s`, not from the aggregate series of the pushed treatment group %s' % (D, ct, T), xs, d.node
+    return None, '%s has no unique construction' % D, xs, None
+  cv = view.expand(d.node, d.value)
+  ct = norm(cv)
+  if not (isinstance(cv, ast.Call) and norm(cv.func).split('.')[-1] == 'TBRMMDiagnostics' and len(cv.args) == 2 and isinstance(cv.args[0], ast.Call)
+          and norm(cv.args[0].func) == 'self.data.aggregate_time_series' and len(cv.args[0].args) == 1 and norm(cv.args[1]) == 'self.parameters'):
+    return None, '%s is built as `%s`, not visibly from the aggregate series of the pushed treatment group %s' % (D, ct, T), xs, d.node
+  rawt = d.value.args[0].args[0] if isinstance(d.value, ast.Call) and d.value.args and isinstance(d.value.args[0], ast.Call) and d.value.args[0].args else cv.args[0].args[0]
+  sg = _denotes(view, d.node, rawt, T, C, node)
+  if not sg:
+    return sg, '%s is built as `%s`, not from the aggregate series of the pushed treatment group %s' % (D, ct, T), xs, d.node
   return True, '', xs, d.node
 
 
@@ -77,12 +111,23 @@ def r1_r2_r5_search(repo, rep, name):
       continue
     D = D_expr.id
     ok, why, xs, defn = diag_provenance(view, dn, D, T, C)
-    rep.check(ok, 'R1/provenance', '%s: design.diag holds the series of the pushed groups (%s, %s)' % (name, T, C), f.qualname,
-              'TBRMMDesign(..., %s, %s, %s)' % (T, C, norm(darg)[:40]), '%s: the diagnostics attached to the design do not belong to its geos — %s' % (name, why), f.loc(P_.ctor))
+    rep.check3(ok, 'R1/provenance', '%s: design.diag holds the series of the pushed groups (%s, %s)' % (name, T, C), f.qualname,
+               'TBRMMDesign(..., %s, %s, %s)' % (T, C, norm(darg)[:40]), '%s: the diagnostics attached to the design do not belong to its geos — %s' % (name, why), f.loc(P_.ctor),
+               why_open=why)
     # score object
     sdef = rd.single_def(dn, sarg.id) if isinstance(sarg, ast.Name) else None
     sctor = sdef.value if sdef is not None and sdef.how == 'assign' else sarg
     snode = sdef.node if sdef is not None else dn
+    for _hop in range(4):          # score = helper_local (an inlined helper's result variable): follow plain aliases
+      if isinstance(sctor, ast.Name):
+        d2 = rd.single_def(snode, sctor.id)
+        if d2 is not None and d2.how == 'assign' and d2.value is not None:
+          sctor, snode = d2.value, d2.node
+          continue
+      break
+    if not (isinstance(sctor, ast.Call) and norm(sctor.func).endswith('TBRMMScore') and len(sctor.args) == 1) and au.aliens(sctor, (D, T, C)):
+      rep.undecided('R1/provenance', '%s: score of the pushed design' % name, 'the score `%s` is not visibly a TBRMMScore built here' % norm(sctor)[:60], f.loc(P_.ctor))
+      continue
     if not (isinstance(sctor, ast.Call) and norm(sctor.func).endswith('TBRMMScore') and len(sctor.args) == 1):
       rep.violation('R1/provenance', f.qualname, 'score=%s' % norm(sarg)[:60],
                     '%s: the score of the pushed design is `%s`, not a TBRMMScore built from the design\'s diagnostics' % (name, norm(sctor)[:80]), f.loc(P_.ctor))
@@ -90,10 +135,20 @@ def r1_r2_r5_search(repo, rep, name):
     S_expr, s_copied = strip_deepcopy(sctor.args[0])
     same_obj = isinstance(S_expr, ast.Name) and S_expr.id == D and rd.defs_at(snode, D) == rd.defs_at(dn, D)
     same_state = same_obj and view.attr_store_before(snode, D, 'x') is xs
-    rep.check(same_state, 'R1/provenance', '%s: score is computed from the same diagnostics object in the same state' % name, f.qualname,
+    if not same_state and not same_obj:
+      # another name: an alias or a copy of the same object taken after the control series was set is the same state
+      sx = rd.expand(snode, S_expr, aliases=True)[0]
+      sx, _c = strip_deepcopy(sx)
+      if isinstance(sx, ast.Name) and sx.id == D:
+        same_state = None if xs is None else (xs in view.doms.get(snode, ()) or None)
+      elif not isinstance(sx, ast.Name):
+        same_state = None
+      elif ok is None:
+        same_state = None
+    rep.check3(same_state, 'R1/provenance', '%s: score is computed from the same diagnostics object in the same state' % name, f.qualname,
               'TBRMMScore(%s) vs diag=%s' % (norm(sctor.args[0])[:40], norm(darg)[:40]),
               '%s: the score is built from `%s`, which is not the diagnostics object (with the control series) attached to the design' % (name, norm(sctor.args[0])[:60]),
-              f.loc(sctor))
+              f.loc(sctor), why_open='whether `%s` is the diagnostics object of the design in the same state is not resolved' % norm(sctor.args[0])[:40])
     # R2: loop-carried mutable escape
     loops = view.loops_enclosing(dn)
     inner = loops[-1] if loops else None
@@ -232,10 +287,14 @@ def r4_data_object(repo, rep):
           found[t.attr] = (n, cn.text(ctx.rd.expand(n, n.ast.value, keep=(geos,))[0]))
   for fld, pat in want.items():
     if fld not in found:
-      rep.violation('R4/single-source', st.qualname, 'self.%s not set' % fld, 'the geo_index setter no longer sets %s: aggregates use a stale array' % fld, st.loc())
+      dyn = [x_ for x_ in ast.walk(st.node) if isinstance(x_, ast.Call) and norm(x_.func) in ('setattr', 'object.__setattr__', 'self.__dict__.update', 'vars(self).update')]
+      if dyn:
+        rep.undecided('R4/single-source', 'self.%s' % fld, 'the setter stores fields through %s: which fields it installs is not followed' % norm(dyn[0])[:60], st.loc())
+      else:
+        rep.violation('R4/single-source', st.qualname, 'self.%s not set' % fld, 'the geo_index setter no longer sets %s: aggregates use a stale array' % fld, st.loc())
       continue
     n, txt = found[fld]
-    rep.check(re.fullmatch(pat, txt) is not None, 'R4/single-source', '%s is built from the setter argument in its order' % fld, st.qualname,
+    rep.check_term(re.fullmatch(pat, txt) is not None, ctx.rd.expand(n, n.ast.value, keep=(geos,))[0], (geos,), 'R4/single-source', '%s is built from the setter argument in its order' % fld, st.qualname,
               'self.%s = %s' % (fld, txt[:100]), 'self.%s is `%s`: not built from the given geo list in the given order, so indices no longer refer to the same geos as the arrays'
               % (fld, txt[:80]), st.loc(n.ast))
   # every normal path through the setter installs all four fields (no early return that keeps stale arrays)
@@ -258,8 +317,8 @@ def r4_data_object(repo, rep):
     mctx = FuncCtx.of(m)
     for r in rets:
       txt = cn.text(mctx.rd.expand(mctx.node_at(r), r.value, keep=(arg,))[0])
-      pat = r'(float\()?self\.%s\[(list|sorted)\(%s\)\]\.sum\(%s\)\)?' % (arr, arg, ('axis=0' if axis else ''))
-      rep.check(re.fullmatch(pat, txt) is not None, 'R4/single-source', '%s sums the rows of %s selected by its argument' % (mname, arr), m.qualname, txt[:100],
+      pat = r'(float\()?self\.%s\[(list|sorted)\(%s\)\]\.sum\(%s\)\)?' % (arr, arg, ('(axis=0|0)' if axis else '(axis=None|None)?'))
+      rep.check_term(re.fullmatch(pat, txt) is not None, mctx.rd.expand(mctx.node_at(r), r.value, keep=(arg,))[0], (arg,), 'R4/single-source', '%s sums the rows of %s selected by its argument' % (mname, arr), m.qualname, txt[:100],
                 '%s returns `%s`: not the sum over the given geo indices of %s%s' % (mname, txt[:80], arr, ' along the geo axis' if axis else ''), m.loc(r))
 
 
